@@ -244,3 +244,40 @@ theorem plen_le_of_hits (ip : Addr) (a b : Net) (ha : a.WF) (hb : b.WF) (hip : i
     omega
 
 end NV.Contains
+
+namespace NV.Contains
+open NV
+
+theorem lexLe_antisymm : ∀ (a b : List Int), LexLe a b → LexLe b a → a = b
+  | [], [], _, _ => rfl
+  | [], _ :: _, _, h => by simp [LexLe] at h
+  | _ :: _, [], h, _ => by simp [LexLe] at h
+  | x :: xs, y :: ys, h1, h2 => by
+    simp only [LexLe] at h1 h2
+    rcases h1 with h1 | ⟨e1, t1⟩
+    · rcases h2 with h2 | ⟨e2, _⟩ <;> omega
+    · rcases h2 with h2 | ⟨_, t2⟩
+      · omega
+      · rw [e1, lexLe_antisymm xs ys t1 t2]
+
+/-- `sort_key` identifies a network: ties in the sort are equal objects -/
+theorem netLe_antisymm (a b : Net) (h1 : netLe a b = true) (h2 : netLe b a = true) : a = b := by
+  unfold netLe at h1 h2
+  rw [tupleLe_iff] at h1 h2
+  have h := lexLe_antisymm _ _ h1 h2
+  obtain ⟨av, aval, ap⟩ := a
+  obtain ⟨bv, bval, bp⟩ := b
+  simp only [Net.sortKey, List.cons.injEq, and_true] at h
+  obtain ⟨e1, e2, e3, e4⟩ := h
+  have hv : av = bv := by omega
+  have hp : ap = bp := by omega
+  subst hv; subst hp
+  have : aval = bval := by omega
+  subst this; rfl
+
+/-- `sorted()` of two permutations of the same candidates is the same list -/
+theorem sortNets_perm_eq (l l' : List Net) (h : l.Perm l') : sortNets l = sortNets l' :=
+  List.Perm.eq_of_pairwise (fun a b _ _ => netLe_antisymm a b) (sortNets_pairwise l) (sortNets_pairwise l')
+    (((sortNets_perm l).trans h).trans (sortNets_perm l').symm)
+
+end NV.Contains
